@@ -70,6 +70,8 @@ def config_dict(prob, spec=False, split=False):
            "parallel": bool(prob.get("parallel", False))}
     if prob.get("max_iter") is not None:
         opt["max_iterations"] = prob["max_iter"]
+    if prob.get("max_functions") is not None:
+        opt["max_functions"] = prob["max_functions"]
     if prob.get("tol") is not None:
         opt["tolerance"] = prob["tol"]
     o = prob.get("options")
